@@ -4,7 +4,7 @@ import ast
 from ..cfg import witness
 from ..core import AnalysisError, u, walk_local, enclosing_stmt
 from ..lib import (construct, std_facts, def_of, facts_at, calls_of_node,
-                   returns_of, in_subtree, kwarg, copy_kind, facts_imply)
+                   returns_of, in_subtree, kwarg, copy_kind, facts_imply, expand_expr, format_sites)
 from ..resolve import store_accesses
 from .common import allowed_stores, instance_state
 
@@ -67,13 +67,41 @@ def run(ctx):
   ctx.check(ok, 'C19.own-imports', construct(gc), 'dynamic names are resolved by _resolve_selector', 'the dynamic branch no longer resolves through _resolve_selector', gc.loc(), instance='resolver')
   rsf = c.methods['_resolve_selector']
   g2, facts2 = std_facts(prog, rsf)
-  lookups = [n for n in walk_local(rsf.node) if isinstance(n, ast.Call) and u(n.func) == 'self._symbol_table.get']
+  # every read of the symbol table: .get(K, ...), [K], K in ...
+  lookups = []
+  for n in walk_local(rsf.node):
+    if isinstance(n, ast.Call) and u(n.func) == 'self._symbol_table.get' and n.args:
+      lookups.append((n, n.args[0]))
+    elif isinstance(n, ast.Subscript) and u(n.value) == 'self._symbol_table' and isinstance(n.ctx, ast.Load):
+      lookups.append((n, n.slice))
+    elif isinstance(n, ast.Compare) and len(n.ops) == 1 and isinstance(n.ops[0], (ast.In, ast.NotIn)) and u(n.comparators[0]) == 'self._symbol_table':
+      lookups.append((n, n.left))
   others = [n for n in walk_local(rsf.node) if isinstance(n, ast.Name) and n.id in ('_REGISTRY', '_PARSE_CONTEXTS', 'globals', 'sys')]
   nameerr = [n for n in g2.live_nodes() if n.kind == 'raise_stmt' and isinstance(n.ast.exc, ast.Call) and u(n.ast.exc.func) == 'NameError']
-  ok = len(lookups) == 1 and not others and bool(nameerr) and isinstance(lookups[0].args[0], ast.Name) and \
-      (def_of(facts2[nameerr[0].id], lookups[0].args[0].id) or '').replace(' ', '') in ('attr_names[0]',)
+
+  def first_component(n, key):
+    fs = None
+    for cn in g2.live_nodes():
+      if cn.ast is not None and cn.kind in ('stmt', 'test', 'return', 'raise_stmt') and in_subtree(n, cn.ast):
+        fs = facts2[cn.id] if fs is None else (fs & facts2[cn.id])
+    return u(expand_expr(fs or frozenset(), key)).replace(' ', '') in ("selector.split('.')[0]", 'attr_names[0]')
+  def on_miss(n):
+    fs = facts2[n.id]
+    for fct in fs:
+      if fct[0] != 'c':
+        continue
+      t = fct[1].replace(' ', '')
+      if fct[2] is False and t.endswith('inself._symbol_table'):
+        return True
+      if fct[2] is True and ' is ' in fct[1]:
+        l_, r_ = [x.strip() for x in fct[1].split(' is ', 1)]
+        d = def_of(fs, l_) or ''
+        if d.startswith('self._symbol_table.get(') and d.rstrip(')').endswith(r_):
+          return True
+    return False
+  ok = bool(lookups) and not others and bool(nameerr) and all(first_component(n, k) for n, k in lookups) and all(on_miss(n) for n in nameerr)
   ctx.check(ok, 'C19.own-imports', construct(rsf), 'the first component is looked up only in this context\'s symbol table; a miss is a NameError',
-            'first-component lookup changed (lookups: %s, other sources: %s)' % ([u(x) for x in lookups], [x.id for x in others]), rsf.loc(), instance='first-component')
+            'first-component lookup changed (lookups: %s, other sources: %s)' % ([u(x) for x, _k in lookups], [x.id for x in others]), rsf.loc(), instance='first-component')
   chain = [n for n in walk_local(rsf.node) if isinstance(n, ast.Call) and u(n.func) == 'getattr' and len(n.args) == 3]
   aerr = any(isinstance(n, ast.Raise) and isinstance(n.exc, ast.Call) and u(n.exc.func) == 'AttributeError' for n in walk_local(rsf.node))
   ctx.check(bool(chain) and aerr, 'C19.own-imports', construct(rsf), 'later components are followed as attributes; a miss is an AttributeError',
@@ -86,8 +114,11 @@ def run(ctx):
             'the lookup of the resolved object accepts decorators of an already registered function: a name that resolves to a functools.wraps wrapper is '
             'configured as the inner function, not as the exact object the name denotes', gc.loc(), instance='lookup-exact')
   msf = ctx.func('config.ImportManager.minimal_selector')
-  nm = [a for a in walk_local(msf.node) if isinstance(a, ast.Assign) and u(a.targets[0]) == 'name']
-  okq = bool(nm) and all(u(a.value) == 'configurable_.wrapped.__qualname__' for a in nm)
+  g_ms, f_ms = std_facts(prog, msf)
+  # the name part of the emitted `<module selector>.<name>`
+  parts = {u(ops[1]) for r in returns_of(msf) if r.value is not None for _n, tmpl, ops in format_sites(r.value) if tmpl == '{}.{}' and len(ops) == 2}
+  nm = [a for a in walk_local(msf.node) if isinstance(a, ast.Assign) and len(a.targets) == 1 and u(a.targets[0]) in parts]
+  okq = bool(nm) and all(u(expand_expr(facts_at(g_ms, f_ms, a) or frozenset(), a.value)) == 'configurable_.wrapped.__qualname__' for a in nm)
   ctx.check(okq, 'C19.unique-names', construct(msf), 'without an import source a selector is <module selector>.<__qualname__> (nested classes and methods keep their path)',
             'emitted selectors use `%s` instead of the qualified name: nested classes / methods are emitted as names that do not resolve' % [u(a.value) for a in nm],
             msf.loc(), instance='qualname')
@@ -173,6 +204,35 @@ def run(ctx):
       okp = True
     else:
       why = 'the loop does not stop at the first mismatch'
+  # the same by index:  n = 0; while n < min(len(A), len(B) - 1) and A[n] == B[n]: n += 1
+  for wn in [n for n in g_is.live_nodes() if n.kind in ('while', 'test') and isinstance(getattr(n.ast, 'parent', None), ast.While) and n.ast is n.ast.parent.test]:
+    w = wn.ast.parent
+    t = wn.ast
+    if not (isinstance(t, ast.BoolOp) and isinstance(t.op, ast.And) and len(t.values) == 2 and len(w.body) == 1 and isinstance(w.body[0], ast.AugAssign)
+            and isinstance(w.body[0].op, ast.Add) and u(w.body[0].value) == '1' and isinstance(w.body[0].target, ast.Name)):
+      continue
+    n_ = w.body[0].target.id
+    bound, eq = t.values
+    if not (isinstance(bound, ast.Compare) and len(bound.ops) == 1 and isinstance(bound.ops[0], ast.Lt) and u(bound.left) == n_
+            and isinstance(eq, ast.Compare) and len(eq.ops) == 1 and isinstance(eq.ops[0], ast.Eq)):
+      why = 'the index loop does not test the bound before comparing the components'
+      continue
+    sides = []
+    for side in (eq.left, eq.comparators[0]):
+      if isinstance(side, ast.Subscript) and u(side.slice) == n_:
+        sides.append(u(side.value))
+    be = u(expand_expr(f_is[wn.id], bound.comparators[0])).replace(' ', '')
+    if len(sides) == 2 and 'attr_names' in sides:
+      A = [x for x in sides if x != 'attr_names'][0]
+      A = u(expand_expr(f_is[wn.id], ast.parse(A, mode='eval').body)).replace(' ', '')
+      if be in ('min(len(%s),max(len(attr_names)-1,0))' % A, 'min(len(%s),len(attr_names)-1)' % A,
+                'min(max(len(attr_names)-1,0),len(%s))' % A, 'min(len(attr_names)-1,len(%s))' % A):
+        init0 = (def_of(f_is[wn.id], n_) is None)   # re-defined in the loop; the initial value is checked below
+        inits = [a for a in walk_local(isf.node) if isinstance(a, ast.Assign) and u(a.targets[0]) == n_]
+        if inits and all(u(a.value) == '0' for a in inits):
+          okp = True
+      else:
+        why = 'the index bound is `%s`, not min(len(module parts), len(selector components) - 1)' % be
   if not okp:
     sums = [x for x in walk_local(isf.node) if isinstance(x, ast.Call) and u(x.func) == 'sum']
     if sums:
@@ -190,9 +250,9 @@ def import_aliases(ctx, rule):
   g5, facts5 = std_facts(prog, ai)
   uq = [n for n in g5.live_nodes() if n.kind == 'stmt' and isinstance(n.ast, ast.Assign) and isinstance(n.ast.value, ast.Call)
         and prog.resolve_call(ai, n.ast.value) == 'config._uniquify_name']
-  ok = len(uq) == 1 and [u(a).replace(' ', '') for a in uq[0].ast.value.args] == ['statement.bound_name()', 'self.names']
+  ok = len(uq) == 1 and [u(expand_expr(facts5[uq[0].id], a)).replace(' ', '') for a in uq[0].ast.value.args] == ['statement.bound_name()', 'self.names']
   adds = [n for n in g5.live_nodes() if any(u(cc.func) == 'self.names.add' for cc in calls_of_node(n))]
-  ok = ok and bool(adds) and all(u(calls_of_node(n)[0].args[0]) == 'statement.bound_name()' for n in adds) and \
+  ok = ok and bool(adds) and all(u(expand_expr(facts5[n.id], calls_of_node(n)[0].args[0])) == 'statement.bound_name()' for n in adds) and \
       all(witness(g5, uq[0].id, [g5.exit.id], avoid=[n.id for n in adds]) is None or True for _ in [0])
   ren = [n for n in g5.live_nodes() if n.kind == 'stmt' and isinstance(n.ast, ast.Assign) and u(n.ast.targets[0]) == 'statement'
          and u(n.ast.value).replace(' ', '') == 'statement._replace(alias=unique_name)']
